@@ -116,6 +116,48 @@ func memoSequential(r *rng, g *storeGen, n int, hist map[string]int) {
 						lo.Offset = r.intn(3)
 					}
 				}
+				// … or another look-up over the same values (a node as subject and as object, same options):
+				// two methods must never share a memoized answer
+				if len(recent) > 0 && r.chance(1, 4) {
+					rc := recent[r.intn(len(recent))]
+					m = allMethods[r.intn(len(allMethods))]
+					// the look-ups that keep their answers in the same table, over the same number of values
+					twins := map[string]string{"predsForS": "predsForO", "predsForO": "predsForS", "triplesForS": "triplesForO", "triplesForO": "triplesForS",
+						"triplesForSP": "triplesForPO", "triplesForPO": "triplesForSP", "triplesForP": "triplesForS"}
+					if tw, ok := twins[rc.m]; ok && r.chance(2, 3) {
+						m = tw
+					}
+					needS, needP, needO = methodNeeds(m)
+					s, p, o = rc.s, rc.p, rc.o
+					if s == nil && rc.o != nil {
+						if n, err := rc.o.Node(); err == nil {
+							s = n
+						}
+					}
+					if o == nil && rc.s != nil {
+						o = triple.NewNodeObject(rc.s)
+					}
+					if s == nil {
+						s = nodes[r.intn(len(nodes))]
+					}
+					if o == nil {
+						o = objs[r.intn(len(objs))]
+					}
+					if p == nil {
+						p = preds[r.intn(len(preds))]
+					}
+					if !needS {
+						s = nil
+					}
+					if !needP {
+						p = nil
+					}
+					if !needO {
+						o = nil
+					}
+					cp := *rc.lo
+					lo = &cp
+				}
 				recent = append(recent, recentRead{m, s, p, o, lo})
 				if len(recent) > 6 {
 					recent = recent[1:]
